@@ -321,7 +321,9 @@ class Parser:
             and self.__curcommand.non_deterministic_args
         )
         if condition:
-            self.__curcommand.reassign_arguments()
+            if not self.__curcommand.reassign_arguments():
+                # nothing to reassign: rewinding would loop forever
+                return False
             # rewind lexer
             self.lexer.pos -= 1
             return True
